@@ -98,6 +98,7 @@ func runC09(c *Ctx) {
 	ruleExitGuards(c, p, "C09.guard")
 	rulePacketRead(c, p, "C09.packet-read")
 	rulePacketDeadline(c, p, "C09.deadline")
+	ruleVersionArgs(c, p, "C09.version")
 	c.R.Assumptions = append(c.R.Assumptions,
 		"(*proto.Writer).Flush writes synchronously (net.Buffers.WriteTo) and drops every reference afterwards (C09.writer.* = the C14 induction steps)",
 		"decided: order of encode / flush / callback / terminator on all paths; not decided: byte equality of each block with the snapshot taken inside the callback")
